@@ -129,6 +129,92 @@ func (e *encFunc) famOf(v ssa.Value) (*family, LF, bool) {
 	return nil, off, false
 }
 
+// mergeByteRows joins single-octet stores that spell one big-endian integer octet by octet
+// (b[2] = byte(n >> 8); b[3] = byte(n)) into the row a PutUintN call would give.
+func mergeByteRows(rows []encRow) []encRow {
+	// whole-octet slice of one leaf: returns leaf and the index of the slice's lowest bit
+	octetOf := func(r encRow) (int, int, bool) {
+		if r.Octets != 1 || !r.Off.isConst() || len(r.Val) < 8 {
+			return 0, 0, false
+		}
+		first := r.Val[0]
+		if first.K != bRef || first.Idx%8 != 0 {
+			return 0, 0, false
+		}
+		for i := 0; i < 8; i++ {
+			b := r.Val[i]
+			if b.K != bRef || b.Leaf != first.Leaf || b.Idx != first.Idx+i {
+				return 0, 0, false
+			}
+		}
+		return first.Leaf, first.Idx, true
+	}
+	used := make([]bool, len(rows))
+	var out []encRow
+	for i, r := range rows {
+		if used[i] {
+			continue
+		}
+		leaf, idx, ok := octetOf(r)
+		if !ok || idx == 0 {
+			continue
+		}
+		// r is a higher octet: collect the lower octets at the following offsets
+		group := []int{i}
+		want := idx - 8
+		off := r.Off.C + 1
+		for want >= 0 {
+			found := -1
+			for j, q := range rows {
+				if used[j] || j == i || q.Cond != r.Cond {
+					continue
+				}
+				l2, i2, ok2 := octetOf(q)
+				if ok2 && l2 == leaf && i2 == want && q.Off.C == off {
+					found = j
+					break
+				}
+			}
+			if found < 0 {
+				break
+			}
+			group = append(group, found)
+			want -= 8
+			off++
+		}
+		if want >= 0 || len(group) < 2 {
+			continue
+		}
+		n := len(group)
+		val := make(BV, n*8)
+		for k, gi := range group {
+			for b := 0; b < 8; b++ {
+				val[(n-1-k)*8+b] = rows[gi].Val[b]
+			}
+			used[gi] = true
+		}
+		m := r
+		m.Octets, m.Val = n, val
+		out = append(out, m)
+	}
+	for i, r := range rows {
+		if !used[i] {
+			out = append(out, r)
+		}
+	}
+	return out
+}
+
+// hasAppend: something is appended to the buffer after its allocation (its length is not its initial length).
+func (fm *family) hasAppend() bool {
+	for _, s := range fm.Segs {
+		if isAppendCall(valueOf(s.Ins)) != nil {
+			return true
+		}
+	}
+	return false
+}
+
 func (e *encFunc) family(root ssa.Value, name string, initLen LF) *family {
 	if fm, ok := e.fams[root]; ok {
 		return fm
@@ -346,6 +432,26 @@ func (e *encFunc) classifySeg(seg *encSeg, into *family, facts []Fact) {
 		}
 	}
 	if ph, ok := src.(*ssa.Phi); ok {
+		// "var x []byte; if present { x = ... }": nil on the other edges contributes no octets
+		var only ssa.Value
+		n := 0
+		for _, ed := range ph.Edges {
+			if !isNilConst(ed) {
+				only = ed
+				n++
+			}
+		}
+		if n == 1 && only != ssa.Value(ph) {
+			if _, isPhi := only.(*ssa.Phi); !isPhi {
+				s2 := *seg
+				s2.Src = only
+				e.classifySeg(&s2, into, facts)
+				if s2.Kind != "other" {
+					seg.Kind, seg.Field, seg.Fam = s2.Kind, s2.Field, s2.Fam
+					return
+				}
+			}
+		}
 		for _, ed := range ph.Edges {
 			if ap := isAppendCall(ed); ap != nil {
 				if fm, _, ok := e.famOfAppendBase(ap); ok {
@@ -519,7 +625,7 @@ func (c *Ctx) encodeTablesOf(fn *ssa.Function, st *slotTables, recvRecord string
 				}
 			}
 		}(t, nb0, ns0)
-		for _, r := range fm.Rows {
+		for _, r := range mergeByteRows(fm.Rows) {
 			off := base[fm].add(r.Off, 1)
 			pos := c.InstrPos(r.Ins)
 			if !off.isConst() {
@@ -544,6 +650,13 @@ func (c *Ctx) encodeTablesOf(fn *ssa.Function, st *slotTables, recvRecord string
 				// the last thing appended to a record that is not in a loop ends the record
 				if isAppendCall(valueOf(s.Ins)) != nil && !s.InLoop && e.isFinalSeg(tfm, fm, s) {
 					his, open = "end", true
+				}
+				// copied into a pre-sized buffer up to its very end, and nothing is appended to that buffer
+				if isAppendCall(valueOf(s.Ins)) == nil && !s.InLoop && fm == tfm && !fm.hasAppend() {
+					total := f.pin(fm.InitLen, f.FactsAt(s.Ins.Block()))
+					if hi.key() == total.key() {
+						his, open = "end", true
+					}
 				}
 				t.Segs = append(t.Segs, segRow{Field: s.Field, LoLF: at, HiLF: hi, Lo: lo, Hi: his, Open: open, Cond: s.Cond, Pos: c.InstrPos(s.Ins)})
 			case "family":
